@@ -171,15 +171,37 @@ func (fr *frame) findMethod(t types.Type, name string) *ssaFunc {
 
 func (fr *frame) sprintf(format value, args []value) value {
 	f, ok := format.(string)
+	var symAt map[int]*Term
 	if !ok {
-		panic(engineError{"fmt model: symbolic format string"})
+		// A format string with symbolic bytes (user text spliced into the format).  Bytes
+		// that are not '%' are literals; a feasible '%' cannot be modelled - the path ends
+		// as an engine error whose probe values (with the '%') are replayed natively.
+		fb := strBytes(format)
+		raw := make([]byte, len(fb))
+		symAt = map[int]*Term{}
+		for i, t := range fb {
+			if t.IsConst() {
+				raw[i] = byte(t.val)
+				continue
+			}
+			if fr.w.branch(fr.w.tb.Cmp(OpEq, t, K(8, '%'))) {
+				panic(engineError{"fmt model: '%' from a symbolic byte in the format string"})
+			}
+			raw[i] = 0x01
+			symAt[i] = t
+		}
+		f = string(raw)
 	}
 	var out []*Term
 	argi := 0
 	for i := 0; i < len(f); {
 		c := f[i]
 		if c != '%' {
-			out = append(out, K(8, uint64(c)))
+			if t := symAt[i]; t != nil {
+				out = append(out, t)
+			} else {
+				out = append(out, K(8, uint64(c)))
+			}
 			i++
 			continue
 		}
